@@ -208,6 +208,15 @@ func (f *Func) GuardsAt(n ast.Node) []Atom {
 			break
 		}
 		switch x := cur.(type) {
+		case *ast.BinaryExpr:
+			// short-circuit: inside Y of `X && Y` X holds; inside Y of `X || Y` X is false
+			if child == ast.Node(x.Y) {
+				if x.Op == token.LAND {
+					atoms = append(atoms, Decompose(x.X, true, x)...)
+				} else if x.Op == token.LOR {
+					atoms = append(atoms, Decompose(x.X, false, x)...)
+				}
+			}
 		case *ast.IfStmt:
 			var as []Atom
 			if child == ast.Node(x.Body) {
